@@ -20,6 +20,8 @@ type Event struct {
 	Args map[string]any `json:"args,omitempty"`
 	Res  map[string]any `json:"res,omitempty"`
 	Err  string         `json:"err,omitempty"`
+	Skip bool           `json:"skip,omitempty"` // the call failed before reaching the backend (no effect)
+	After bool          `json:"after,omitempty"` // the backend call completed; the error was injected afterwards
 }
 
 // ErrInjected is the error injected faults return.
@@ -216,14 +218,32 @@ func (h *Hub) before(txn, kind string) decision {
 	return d
 }
 
+// Gate is a scheduling point that is not a backend call (e.g. before an API operation): it is counted and can
+// be a breakpoint, but faults are not applied to it.
+func (h *Hub) Gate(txn, kind string) {
+	h.mu.Lock()
+	h.counts[txn]++
+	n := h.counts[txn]
+	var park chan struct{}
+	if b := h.breaks[txn]; b != 0 && b == n {
+		park = make(chan struct{})
+		h.parked[txn] = park
+	}
+	h.mu.Unlock()
+	if park != nil {
+		h.Notify <- ParkMsg{Txn: txn, N: n, Kind: kind}
+		<-park
+	}
+}
+
 // FlushOnCrash lets the process owner persist the trace before os.Exit.
 var FlushOnCrash func()
 
 func (h *Hub) after(txn, kind string, d decision, args, res map[string]any, err error) error {
+	e := Event{Txn: txn, Ev: kind, N: d.n, Args: args, Res: res, Skip: d.failFirst, After: d.failAfter && err == nil}
 	if d.failAfter && err == nil {
 		err = ErrInjected
 	}
-	e := Event{Txn: txn, Ev: kind, N: d.n, Args: args, Res: res}
 	if err != nil {
 		e.Err = errClass(err)
 	}
